@@ -5,7 +5,7 @@ CONSTANTS
   Users = {"u1", "u2", "u3"}
   Consumers = {"u3"}
   Actors = {"u3", "u1"}
-  MaxH = 6
+  MaxH = 5
   MaxCtx = 1
   InitBal = 12
   TaxNum = 1
@@ -16,11 +16,11 @@ CONSTANTS
   MinMult = 1
   MinDepP = 2
   Wait = 2
-  FeeCaps = {2, 4}
+  FeeCaps = {4}
   Timeouts = {1}
-  Freqs = {0, 2}
+  Freqs = {0}
   Totals = {2}
-  RepeatedVals = {TRUE, FALSE}
+  RepeatedVals = {FALSE}
   Modules = FALSE
   BindOps = TRUE
   SetupSpec <- SetupB
